@@ -350,6 +350,13 @@ def generate(unit_dir, canary=False):
                 # different iterator expression a failed invariant is a mismatch of the proof script, not evidence.  As in every
                 # undecided case the replay search still runs, and a concrete witness is still reported as a violation.
                 raise Undecided("loop-head-changed", "%s: `for` iterators were %s, now %s" % (item_id, base_heads, cur_heads))
+        absent = [x["expr"] for x in log if x.get("rule") == "O1-absent"]
+        if absent and not (attrs.get("contract_only") or attrs.get("body") == "opaque"):
+            # an expression the unit abstracts (rule O1) no longer occurs in the item: whatever replaced it is outside the
+            # modelled subset (typically a std call without a specification), so a failed obligation downstream is a mismatch
+            # of the proof script, not evidence against the code.  As in every undecided case the replay search still runs,
+            # and a concrete witness is still reported as a violation.
+            raise Undecided("abstraction-changed", "%s: abstracted expression(s) no longer present: %s" % (item_id, "; ".join(a[:80] for a in absent)))
         placed, changed = place_annotations(tl, cur_lines, item_id)
         has_requires = any(a and re.match(r"\s*requires\b", t) for a, t, _ in placed)
         out_lines.append("//#item-begin %s" % item_id)
